@@ -351,4 +351,15 @@ def r_enum(ctx):
     repo_idioms(ctx, "C06.R6", ('connection',))
 
 
-RULES = [("C06.R1", r1), ("C06.R2", r2), ("C06.R3", r3), ("C06.R4", r4), ("C06.R5", r5), ("C06.R6", r_enum)]
+def r7(ctx):
+    """fragments share datagrams with other messages: each message of a multi-message datagram must come back with its own
+    type, number and bytes, or a fragment is delivered as an application message (and the other way round) - shared codec
+    obligations C09.R2 (the reader reads back exactly what the writer wrote, per message)"""
+    from . import c09
+    from .c02 import _Sub
+    c09.r2(_Sub(ctx, "C06.R7"))
+
+
+EXPLANATION = EXPLANATION + " (R7) the datagram codec returns each message of a multi-message datagram with its own type, number and bytes (shared C09.R2): fragments interleave with other messages in one datagram."
+
+RULES = [("C06.R1", r1), ("C06.R2", r2), ("C06.R3", r3), ("C06.R4", r4), ("C06.R5", r5), ("C06.R6", r_enum), ("C06.R7", r7)]
